@@ -8,7 +8,8 @@
  * increasing inside a block, every key of block j is <= separator[j] and
  * > separator[j-1]; separators strictly increasing.
  *
- * VP_MODE 0: VP_K symbolic operations among first/last/seek(sym)/next/prev.
+ * VP_MODE 0: VP_K steps, the operation of step k chosen symbolically inside the
+ *   set VP_OS<k> (C07/ops.h) among first/last/seek(sym)/next/prev.
  *   After each: valid/key/value == sorted-map cursor over the union of all
  *   blocks (so empty blocks are skipped in both directions, nothing is lost or
  *   repeated); at most one data iterator is alive; status() follows LevelDB's
@@ -197,27 +198,27 @@ vp_apply(int op, int mask, const uint8_t *t) {
   /* mask (a constant per step) removes the excluded operations from the
      program, not only from the models */
   if ((mask & (1 << VP_OP_FIRST)) && op == VP_OP_FIRST) {
-      ldb_twoiter_first(vp_ti);
-      vp_cur = vp_ref_first(&vp_ref);
+    ldb_twoiter_first(vp_ti);
+    vp_cur = vp_ref_first(&vp_ref);
   } else if ((mask & (1 << VP_OP_LAST)) && op == VP_OP_LAST) {
-      ldb_twoiter_last(vp_ti);
-      vp_cur = vp_ref_last(&vp_ref);
+    ldb_twoiter_last(vp_ti);
+    vp_cur = vp_ref_last(&vp_ref);
   } else if ((mask & (1 << VP_OP_SEEK)) && op == VP_OP_SEEK) {
-      target.data = (uint8_t *)t;
-      target.size = 1;
-      target.alloc = 0;
-      ldb_twoiter_seek(vp_ti, &target);
-      vp_cur = vp_ref_seek_ge(&vp_ref, t, 1);
+    target.data = (uint8_t *)t;
+    target.size = 1;
+    target.alloc = 0;
+    ldb_twoiter_seek(vp_ti, &target);
+    vp_cur = vp_ref_seek_ge(&vp_ref, t, 1);
   } else if ((mask & (1 << VP_OP_NEXT)) && op == VP_OP_NEXT) {
-      if (vp_cur < 0)
-        return; /* REQUIRES: valid */
-      ldb_twoiter_next(vp_ti);
-      vp_cur = vp_ref_next(&vp_ref, vp_cur);
+    if (vp_cur < 0)
+      return; /* REQUIRES: valid */
+    ldb_twoiter_next(vp_ti);
+    vp_cur = vp_ref_next(&vp_ref, vp_cur);
   } else if ((mask & (1 << VP_OP_PREV)) && op == VP_OP_PREV) {
-      if (vp_cur < 0)
-        return;
-      ldb_twoiter_prev(vp_ti);
-      vp_cur = vp_ref_prev(&vp_ref, vp_cur);
+    if (vp_cur < 0)
+      return;
+    ldb_twoiter_prev(vp_ti);
+    vp_cur = vp_ref_prev(&vp_ref, vp_cur);
   } else {
     return;
   }
